@@ -43,6 +43,9 @@ def check_forwarding(p_old, p_new, probes, max_stmts=400, rng=None, want_gaps=Tr
     elif len(old_stmts) > max_stmts:
         old_stmts = old_stmts[:max_stmts]
     new_map = _ident_map(new_ir)
+    old_count = {}
+    for _p, _s in stmt_paths(old_ir):
+        old_count[id(_s)] = old_count.get(id(_s), 0) + 1
 
     def bad(sig, detail, path, s):
         viols.append(
@@ -60,7 +63,13 @@ def check_forwarding(p_old, p_new, probes, max_stmts=400, rng=None, want_gaps=Tr
         except Exception as e:  # cannot even build the source cursor: harness issue
             probes.hit("fwd_source_cursor_error")
             continue
-        survives = id(s) in new_map
+        # identity is only a usable witness when the object denotes ONE statement
+        # of the old tree (specialize & co. legitimately share unrenamed
+        # statement objects between the copies they create)
+        unique_old = old_count.get(id(s), 0) == 1
+        survives = unique_old and id(s) in new_map
+        if not unique_old:
+            probes.hit("fwd_shared_object_in_source")
         try:
             r = p_new.forward(cur)
         except GONE:
